@@ -34,17 +34,17 @@ type tsummary struct {
 	first   []byte
 	last    []byte
 	n       int
-	ordered string // "" or description of the first disorder
+	ordered string               // "" or description of the first disorder
 	keys    map[string][2]uint64 // ukey -> min,max seq
 }
 
 type monitor struct {
-	r       *runner
-	ucmp    func(a, b []byte) int
-	ms      map[int64]*mstate
-	tables  map[int64]*tsummary
-	quiet   bool
-	checks  int
+	r           *runner
+	ucmp        func(a, b []byte) int
+	ms          map[int64]*mstate
+	tables      map[int64]*tsummary
+	quiet       bool
+	checks      int
 	removedLive map[int64]bool
 }
 
@@ -503,4 +503,50 @@ func panicFrame(stack string) string {
 		}
 	}
 	return "unknown"
+}
+
+// dumpKey lists, for debugging, every entry of the given user key in the
+// tables of the current version (decoded from the storage bytes).
+func (m *monitor) dumpKey(key []byte) []string {
+	var out []string
+	st := m.current()
+	if st == nil {
+		return out
+	}
+	d := m.r.disk
+	var lvls []int
+	for lv := range st.levels {
+		lvls = append(lvls, lv)
+	}
+	sort.Ints(lvls)
+	for _, lv := range lvls {
+		var nums []int64
+		for n := range st.levels[lv] {
+			nums = append(nums, n)
+		}
+		sort.Slice(nums, func(i, j int) bool { return nums[i] < nums[j] })
+		for _, n := range nums {
+			data, ok := d.Data(storage.FileDesc{Type: storage.TypeTable, Num: n})
+			if !ok {
+				out = append(out, fmt.Sprintf("L%d table %d MISSING", lv, n))
+				continue
+			}
+			t, err := decode.ParseTable(data)
+			if err != nil {
+				out = append(out, fmt.Sprintf("L%d table %d undecodable: %v", lv, n, err))
+				continue
+			}
+			for _, e := range t.Entries {
+				uk, seq, kt, _ := decode.SplitIKey(e.Key)
+				if bytes.Equal(uk, key) {
+					v := e.Val
+					if len(v) > 12 {
+						v = v[:12]
+					}
+					out = append(out, fmt.Sprintf("L%d table %d (%d entries): seq=%d type=%d val=%q len=%d", lv, n, len(t.Entries), seq, kt, v, len(e.Val)))
+				}
+			}
+		}
+	}
+	return out
 }
